@@ -28,6 +28,39 @@ EXPLANATION = ("Theorem C12_holds: forall wf call, spec call (run call) = true, 
 
 SUSPECT = []
 
+# operand pairs (num, modulus) on which weakening one of Jebelean's exactness tests in from_u64_prefix changes
+# the answer (found by the C10 engineer with mutated tracers; ~1 in 10^5 among structured pairs)
+JEBELEAN_WITNESSES = [
+    (127, 'L:ffffffffffffffff,166bd98ab6', 'L:8000000000000000,46b0422ff2b85a8e'),
+    (256, 'L:0,fffffffffe000000,ffffffffffffffff,19eb485e88', 'L:ffffffffffffffff,1ffffff,0,c2d5f6d58f390c17'),
+    (128, 'L:6eae310cd2123b1,f1f75694056f8c8f', 'L:f1b4b4d11e26daa2,f57229fc0fc14f2e'),
+    (128, 'L:ffffffffffffffff,155198b866', 'L:0,a26903a1764a43d0'),
+    (129, 'L:fffffffffc000000,201999067,0', 'L:3ffffff,f5604ad5883e2ad2,1'),
+    (129, 'L:ffffffffffffffff,144ff5c563,0', 'L:0,ab23aca7583edb7e,1'),
+    (256, 'L:ffffffffffffffff,ffffffffffffffff,ffffffffffffffff,d266a303f', 'L:0,0,0,d7d728e75b835cc3'),
+    (256, 'L:0,0,fffffffffff80000,e2fd9930b', 'L:ffffffffffffffff,ffffffffffffffff,7ffff,aa5b91837706d0b2'),
+    (128, 'L:22dd4200de5ad099,549f88b9b40194b2', 'L:4a71a97255011806,dba6f4b8e51f4edc'),
+    (256, 'L:ffffffffffffffff,ffffffffffffffff,ffffffffffffffff,a4bd55f16d', 'L:0,0,0,f6e0082640a7154b'),
+    (127, 'L:0,17e3496938', 'L:7fffffffffffffff,69390676c25c6aa0'),
+    (256, 'L:0,fffffe0000000000,ffffffffffffffff,1379198200', 'L:ffffffffffffffff,1ffffffffff,0,809e4cbfa439b1ab'),
+    (128, 'L:ffffffffffffffff,f32b2b4ef', 'L:0,89cab6d244fb8b2b'),
+    (128, 'L:fffffc0000000000,1cef26a33f', 'L:3ffffffffff,d029441eb4934c56'),
+    (256, 'L:0,ffffffff80000000,ffffffffffffffff,27fbfae76', 'L:ffffffffffffffff,7fffffff,0,cee07c2590f252d6'),
+    (256, 'L:0,0,fffffffffffffffc,fa8573fac', 'L:ffffffffffffffff,ffffffffffffffff,3,eee841389391359d'),
+    (192, 'L:ffffffffffffffff,ffffffffffffffff,1b2fb5afc', 'L:0,0,ea3b5d7b433d12b2'),
+    (192, 'L:0,0,40001783e1', 'L:ffffffffffffffff,ffffffffffffffff,af90810e687aa98b'),
+    (129, 'L:0,444ad804e8,0', 'L:ffffffffffffffff,6b0329e1349aaa1f,1'),
+    (128, 'L:0,4e566a90a', 'L:ffffffffffffffff,e87817b58ef138df'),
+    (192, 'L:f800000000000000,ffffffffffffffff,5eec30d7c8', 'L:7ffffffffffffff,0,d5d74acd4706f35b'),
+    (256, 'L:0,fffffffff0000000,ffffffffffffffff,2e2de0cc34', 'L:ffffffffffffffff,fffffff,0,c36fe4bc297dc009'),
+    (129, 'L:50dddd57e35336cb,53f09745d48868f3,0', 'L:85f2c7889087b9b4,ebd7b26ad902554f,1'),
+    (128, 'L:0,3ee4ffbbae', 'L:ffffffffffffffff,833a088da75226e6'),
+    (192, 'L:0,fe00000000000000,7ce0d7a819b', 'L:ffffffffffffffff,1ffffffffffffff,9760563e519d23ff'),
+    (192, 'L:43435cc52eae05cf,10c4759482c9cbc,6b4013ef254b0c4e', 'L:5e8766ed88daf401,90fbbd119c1caaf7,f3fe39c0519088f5'),
+    (127, 'L:ffffffffe0000000,14ba2b145f', 'L:800000001fffffff,687715c2a5e02ed4'),
+    (128, 'L:ffffffffffffffff,398f35c9f53', 'L:0,ac0bbed35064b165'),
+]
+
 WFNS = ["gcd", "lcm", "gcd_extended", "alg_gcd", "alg_gcd_extended", "alg_inv_mod"]
 M64 = (1 << 64) - 1
 M128 = (1 << 128) - 1
@@ -262,6 +295,7 @@ def direct(rng, n):
 def width_cases(rng, bits, reps, keep=None):
     out = []
     m = 1 << bits
+    light = bits >= 2048            # the model needs seconds per case there: one case per entry point + a few pairs
     for _ in range(reps):
         ps = pairs(rng, bits)
         if keep is not None and len(ps) > keep:
@@ -276,24 +310,25 @@ def width_cases(rng, bits, reps, keep=None):
     a, b = cf_pair(rng, bits, "mixed")
     for f in WFNS:
         out.append(line2(f, bits, b, a))
-        out.append(line2(f, bits, a, b))
+        if not light:
+            out.append(line2(f, bits, a, b))
     out.append(line2("m_from", bits, a, b))
     if a != b:
         out.append(line2("m_from", bits, b, a))            # documented panic
     out.append("m_identity %d" % bits)
     # inv_mod: coprime pairs, modulus 0/1/2, num >= modulus
-    for _ in range(3):
+    for _ in range(1 if light else 3):
         mo = C.rand_value(rng, bits)
         nu = C.rand_value(rng, bits)
         out.append(line2("alg_inv_mod", bits, nu, mo))
         out.append(line2("alg_inv_mod", bits, nu, (mo | 1) % m))
-    for mo in (0, 1, 2, 3, m - 1, m // 2):
+    for mo in ((0, 1) if light else (0, 1, 2, 3, m - 1, m // 2)):
         out.append(line2("alg_inv_mod", bits, C.rand_value(rng, bits), mo % m))
     # apply with matrices of partial runs, the identity, boundary entries
     ms = [(1, 0, 0, 1, True), (0, 1, 1, 0, False), partial_matrix(rng), partial_matrix(rng, 16),
           partial_matrix(rng, 8), (M64, 1, 1, M64, True), (3, 1, 2, 1, False),
           (C.rand_limb(rng), C.rand_limb(rng), C.rand_limb(rng), C.rand_limb(rng), rng.random() < 0.5)]
-    for mt in ms:
+    for mt in (ms[:3] if light else ms):
         a, b = C.rand_value(rng, bits), C.rand_value(rng, bits)
         out.append("m_apply %d %s %s %s" % (bits, mat_tok(mt), C.tokU(bits, a), C.tokU(bits, b)))
     if 0 < bits < 64:
@@ -321,6 +356,12 @@ def corpus():
         for fn in WFNS:
             out.append(line2(fn, bits, 0, m - 1))
             out.append(line2(fn, bits, (m - 1) // 3, m - 1))
+    for bits, n, m in JEBELEAN_WITNESSES:
+        vn, vm = C.from_limbs([int(x, 16) for x in n[2:].split(",")]), C.from_limbs([int(x, 16) for x in m[2:].split(",")])
+        out.append("alg_inv_mod %d %s %s" % (bits, n, m))
+        out.append("alg_gcd_extended %d %s %s" % (bits, m, n))
+        out.append("gcd %d %s %s" % (bits, n, m))
+        out.append(line2("m_from", bits, max(vn, vm), min(vn, vm)))
     return [ln for ln in out if ln not in SUSPECT]
 
 
@@ -329,8 +370,9 @@ def gen(rng, tier):
     widths = C.WIDTHS_QUICK if quick else C.WIDTHS_QUICK + C.WIDTHS_MORE
     out = []
     for bits in widths:
-        reps = 1 if quick else (4 if bits <= 1030 else 1)
-        out += width_cases(rng, bits, reps, 15 if quick else None)
+        reps = 1 if quick else (3 if bits <= 536 else 1)
+        keep = 15 if quick else (None if bits <= 536 else (12 if bits < 2048 else 4))
+        out += width_cases(rng, bits, reps, keep)
     out += direct(rng, 30 if quick else 400)
     return [ln for ln in out if ln not in SUSPECT]
 
